@@ -511,6 +511,12 @@ func sessionChargingReservation(
 		var finalUnitIndication models.FinalUnitIndication
 		creditControl := false
 
+		// requestedUnit is optional: no requested unit means no volume requested
+		var requestedVolume int32
+		if unitUsage.RequestedUnit != nil {
+			requestedVolume = unitUsage.RequestedUnit.TotalVolume
+		}
+
 		rg := unitUsage.RatingGroup
 		if !ue.FindRatingGroup(rg) {
 			ue.RatingGroups = append(ue.RatingGroups, rg)
@@ -591,7 +597,7 @@ func sessionChargingReservation(
 			ue.UnitCost[rg] = getUnitCost(ue, rg, sur)
 
 			usedQuota := uint64(totalUsedUnit * ue.UnitCost[rg])
-			requestedQuota = uint64(uint32(unitUsage.RequestedUnit.TotalVolume) * ue.UnitCost[rg])
+			requestedQuota = uint64(uint32(requestedVolume) * ue.UnitCost[rg])
 			ue.ReservedQuota[rg] -= int64(usedQuota)
 			NeedReserveQuota := !(ue.ReservedQuota[rg] > 0)
 
@@ -642,7 +648,7 @@ func sessionChargingReservation(
 
 			ue.UnitCost[rg] = getUnitCost(ue, rg, sur)
 
-			grantedUnit := min(uint32(serviceUsageRsp.ServiceRating.AllowedUnits), uint32(unitUsage.RequestedUnit.TotalVolume))
+			grantedUnit := min(uint32(serviceUsageRsp.ServiceRating.AllowedUnits), uint32(requestedVolume))
 
 			if ue.RatingType[rg] == charging_datatype.REQ_SUBTYPE_RESERVE {
 				unitInformation.Triggers = append(unitInformation.Triggers,
